@@ -47,6 +47,8 @@ pub enum PKind {
     Content,
     /// unsigned column bound to the final position of another entry of the same store
     Ref,
+    /// the same through a signed column (`Value::SignedWord`)
+    SRef,
 }
 
 #[derive(Serialize, Deserialize, Clone, Copy, Debug, PartialEq, Eq, Hash)]
@@ -240,7 +242,7 @@ pub fn pkind_strategy(allow_ref: bool) -> BoxedStrategy<PKind> {
     let fixed = prop_oneof![Just(0u8), Just(0u8), Just(1u8), Just(2u8), Just(3u8), Just(5u8), Just(31u8), 0u8..=31];
     let arr = (fixed, 0u8..3).prop_map(|(fixed, store)| PKind::Array { fixed, store });
     if allow_ref {
-        prop_oneof![3 => Just(PKind::UInt), 3 => Just(PKind::SInt), 4 => arr, 2 => Just(PKind::Content), 2 => Just(PKind::Ref)].boxed()
+        prop_oneof![3 => Just(PKind::UInt), 3 => Just(PKind::SInt), 4 => arr, 2 => Just(PKind::Content), 2 => Just(PKind::Ref), 1 => Just(PKind::SRef)].boxed()
     } else {
         prop_oneof![3 => Just(PKind::UInt), 3 => Just(PKind::SInt), 4 => arr, 2 => Just(PKind::Content)].boxed()
     }
@@ -400,6 +402,7 @@ pub fn effective(spec: &EStoreSpec, nvstores: usize) -> EffSchema {
                     name: VPNAMES[v][i],
                     kind: match fix(p.kind) {
                         PKind::Ref => PKind::UInt,
+                        PKind::SRef => PKind::SInt,
                         k => k,
                     },
                     constant: p.constant,
@@ -459,7 +462,8 @@ impl EStoreModel {
         let e = &self.entries[self.order[p]];
         let mut vals = e.vals.clone();
         for (n, t) in &e.refs {
-            vals.insert(n.clone(), DVal::U(self.final_pos[*t] as u64));
+            let signed = self.schema.common.iter().any(|p| p.name == n && p.kind == PKind::SRef);
+            vals.insert(n.clone(), if signed { DVal::S(self.final_pos[*t] as i64) } else { DVal::U(self.final_pos[*t] as u64) });
         }
         (e.variant, vals)
     }
@@ -553,7 +557,7 @@ pub fn build_model(spec: &DirSpec, addresses: &[(u16, u32)]) -> DirModel {
                         };
                         vals.insert(p.name.to_string(), DVal::C(pk, c));
                     }
-                    PKind::Ref => {
+                    PKind::Ref | PKind::SRef => {
                         refs.insert(p.name.to_string(), rv.x as u16);
                     }
                 }
@@ -653,7 +657,7 @@ pub fn build_dir(model: &DirModel) -> DirBuild {
     for sm in &model.stores {
         let mk = |p: &EffProp| match p.kind {
             PKind::UInt | PKind::Ref => schema::Property::new_uint(p.name),
-            PKind::SInt => schema::Property::new_sint(p.name),
+            PKind::SInt | PKind::SRef => schema::Property::new_sint(p.name),
             PKind::Array { fixed, store } => schema::Property::new_array(fixed as usize, vstores[store as usize].clone(), p.name),
             PKind::Content => schema::Property::new_content_address(p.name),
         };
@@ -688,7 +692,15 @@ pub fn build_dir(model: &DirModel) -> DirBuild {
             }
             for (n, t) in &e.refs {
                 let sname = names.iter().find(|x| **x == n.as_str()).unwrap();
-                hm.insert(*sname, jbk::Value::UnsignedWord(bound_of[*t].clone().into()));
+                let signed = sm.schema.common.iter().any(|p| p.name == n && p.kind == PKind::SRef);
+                if signed {
+                    // a signed reference column (e.g. -1 meaning "no target" in applications)
+                    let b = bound_of[*t].clone();
+                    let f: Box<dyn Fn() -> i64 + Sync + Send> = Box::new(move || b.get().into_u32() as i64);
+                    hm.insert(*sname, jbk::Value::SignedWord(f.into()));
+                } else {
+                    hm.insert(*sname, jbk::Value::UnsignedWord(bound_of[*t].clone().into()));
+                }
             }
             let entry = EntryType::new_from_schema_idx(&es.schema, vow, e.variant.map(|v| VNAMES[v as usize]), hm);
             bounds.push(es.add_entry(entry));
@@ -1007,6 +1019,7 @@ pub fn shape_classes(model: &DirModel, spec: &DirSpec) -> Vec<String> {
                     PKind::Array { .. } => "kind:array",
                     PKind::Content => "kind:content",
                     PKind::Ref => "kind:ref",
+                    PKind::SRef => "kind:sref",
                 }
                 .to_string(),
             );
